@@ -4,6 +4,7 @@ mod bgzf_level;
 mod cut;
 mod format_level;
 mod format_writers;
+mod large;
 
 use bgzf_level::{ROp::*, WOp, make_case, make_wscript};
 use vmc::{Config, oracle::bgzf::Payload};
@@ -88,6 +89,10 @@ fn format_level_harnesses(ctx: &mut vmc::Ctx) {
             extra.extend(format_level::reblocked(d, Some(61)));
         }
     }
+    // tabix / CSI documents with a block boundary inside every integer field (at most 64 of them)
+    for d in docs.iter().filter(|d| !d.big && d.set != "empty") {
+        extra.extend(large::reblocked_in_counts(d, 64, None));
+    }
     let all: Vec<RCase> = docs.iter().chain(extra.iter()).filter(|d| !d.big).filter_map(|d| format_level::make_rcase(&docs, d)).collect();
     // one small document per format for the deeper bounds: the one with the most scripts, then the smallest
     let mut small: Vec<RCase> = Vec::new();
@@ -115,11 +120,12 @@ fn format_level_harnesses(ctx: &mut vmc::Ctx) {
     }
     let b = env_u32("C16_B").unwrap_or(ctx.by_tier(1, 2));
     if on("fmt_reader") {
-        // the documents re-blocked every 61 bytes have 20+ inflate tasks per execution: bound 1 in both tiers
-        let (light, heavy): (Vec<&RCase>, Vec<&RCase>) = all.iter().partition(|c| !c.name.contains("reblocked-every"));
+        // the documents re-blocked every 61 bytes / inside every index count have 20+ inflate tasks per
+        // execution: bound 1 in both tiers
+        let (light, heavy): (Vec<&RCase>, Vec<&RCase>) = all.iter().partition(|c| !c.name.contains("reblocked-every") && !c.name.contains("reblocked-in-counts"));
         ctx.harness(Config::new("fmt_reader", b), |ch| format_level::reader_body(ch, &light, &workers, &choose));
         if !heavy.is_empty() {
-            ctx.harness(Config::new("fmt_reader_reblocked61", 1), |ch| format_level::reader_body(ch, &heavy, &workers, &choose));
+            ctx.harness(Config::new("fmt_reader_manyblocks", 1), |ch| format_level::reader_body(ch, &heavy, &workers, &choose));
         }
     }
     let bd = env_u32("C16_BD").unwrap_or(ctx.by_tier(2, 3));
@@ -194,5 +200,54 @@ fn format_level_harnesses(ctx: &mut vmc::Ctx) {
     }
     if on("fmt_writer_deep") {
         ctx.harness(Config::new("fmt_writer_deep", bd), |ch| format_writers::writer_body(ch, &wsmall, &workers, &choose));
+    }
+
+    // ---- documents larger than one BGZF block (headers / index sections > 64 KiB): uniform adversaries
+    // only, plus a bound-1 Choose run on the tabix index whose names block crosses a block boundary ----
+    let mut ldocs = large::large_docs();
+    let lre: Vec<vnd::Doc> = ldocs
+        .iter()
+        .filter_map(|d| match d.format {
+            // boundaries inside the header counts only (n_ref … l_nm / l_aux … n_ref is behind the names)
+            Format::Tbi => large::reblocked_in_counts(d, 16, Some(36)),
+            Format::Csi => large::reblocked_in_counts(d, 16, Some(44)),
+            _ => None,
+        })
+        .collect();
+    ldocs.extend(lre);
+    let lcases: Vec<RCase> = ldocs
+        .iter()
+        .filter_map(|d| format_level::make_rcase(&ldocs, d))
+        .filter_map(|c| {
+            let indexed = matches!(c.format, Format::Bam | Format::VcfGz);
+            c.restricted(&|s| match s {
+                Script::Seq(0) => true,
+                Script::Seq(1) => matches!(c.format, Format::Bam | Format::VcfGz | Format::Sam | Format::Vcf | Format::Crai),
+                Script::Query(l, _) => indexed && *l == "three-regions",
+                _ => false,
+            })
+        })
+        .collect();
+    eprintln!("[C16] format level: {} large reader cases: {}", lcases.len(), lcases.iter().map(|c| format!("{}({}B)", c.name, c.bytes.len())).collect::<Vec<_>>().join(" "));
+    if on("fmt_reader_large_uniform") {
+        ctx.harness(Config::new("fmt_reader_large_uniform", 0), |ch| format_level::reader_body(ch, &lcases.iter().collect::<Vec<_>>(), &workers, &uniform));
+    }
+    if on("fmt_reader_large") {
+        let one: Vec<&RCase> = lcases.iter().filter(|c| c.name == "tbi-large-names").collect();
+        ctx.harness(Config::new("fmt_reader_large", 1), |ch| format_level::reader_body(ch, &one, &workers, &choose));
+    }
+    let lw: Vec<format_writers::WCase> = ldocs
+        .iter()
+        .filter(|d| !d.name.contains("reblocked"))
+        .filter_map(format_writers::make_wcase)
+        .map(|mut c| {
+            // one BGZF block per 500 records, not per 2
+            c.flush_every = 500;
+            c.recompute();
+            c
+        })
+        .collect();
+    if on("fmt_writer_large_uniform") {
+        ctx.harness(Config::new("fmt_writer_large_uniform", 0), |ch| format_writers::writer_body(ch, &lw.iter().collect::<Vec<_>>(), &workers, &uniform));
     }
 }
